@@ -83,7 +83,13 @@ func normalizeLimits(limits Limits) Limits {
 func (l *Loader) SetLimits(limits Limits) {
 	l.mu.Lock()
 	defer l.mu.Unlock()
-	l.limits = normalizeLimits(limits)
+	limits = normalizeLimits(limits)
+	if limits != l.limits {
+		// What is cached was admitted under the old limits.
+		l.cache = make(map[string]cachedFile)
+		l.epoch++
+	}
+	l.limits = limits
 }
 
 func (l *Loader) getLimits() Limits {
